@@ -49,6 +49,9 @@ def jobs(tier):
     for hm, init, ik in ((1, 1, 0x10), (2, 2, 0x10), (1, 1, 0x0)):
         J.append(conc("2,0,0,0", hmap=hm, init=init, enum=5, enum2=4, nenum=2, nops=1, ninit=2 if ik else 1, init_keys=ik))
     J.append(conc("1,1,0,0", hmap=1, init=1, enum=5, enum2=4, nenum=2, nops=1, **TWO))
+    # ... and on a key that lands directly behind a bucket node the concurrent shrink is unlinking (only key 0 stored)
+    for hm, init in ((2, 2), (4, 4)):
+        J.append(conc("2,0,0,0", hmap=hm, init=init, enum=1, enum2=4, nenum=2, nops=1, ninit=1, init_keys=0x0))
     # partitioned grow with pthread_create failing for one helper: the leftover partition must still be populated
     J.append(conc("1,0,1,0", workers=16, hmap=1, init=1, min_partition_order=0, pthread_create_eagain=1, prog0=prog((K_RESIZE, 4)),
                   prog1=prog((K_LOOKUP, 1), (K_WALKALL, 0)), **TWO))
